@@ -1,6 +1,6 @@
 use na::{self, ComplexField};
 
-use crate::math::{Point, Real};
+use crate::math::{Point, Real, Vector};
 use crate::query::{PointProjection, PointQuery};
 use crate::shape::{Ball, FeatureId};
 
@@ -13,6 +13,10 @@ impl PointQuery for Ball {
 
         if inside && solid {
             PointProjection::new(true, *pt)
+        } else if distance_squared == 0.0 {
+            // The point is at the center of the ball: every point of the
+            // sphere is a closest point, so pick an arbitrary one.
+            PointProjection::new(inside, Point::from(Vector::ith(1, self.radius)))
         } else {
             let proj =
                 Point::from(pt.coords * (self.radius / ComplexField::sqrt(distance_squared)));
